@@ -49,7 +49,15 @@ structure Sim where
   all : List Op
 
 def runTok (s : Sim) (j : Nat) (tok : String) : Option Sim :=
-  if tok == "s" then
+  -- end-to-end cases: E marks them; x (upstream restarted), d / e (sync switched off / on) change no store;
+  -- w (wait for convergence) is rendered as three catch-up passes
+  if tok == "E" then some s
+  else if tok == "x" || tok == "d" || tok == "e" then some { s with res := s.res ++ [tok] }
+  else if tok == "w" then
+    let pass := fun (p : Pair) (k : Nat) =>
+      syncNode (wallOf (j * 4 + k)) (2 ^ (p.a.edges.length + p.b.edges.length) + 2) { p with clk := 0 } sRA sG
+    some { s with p := pass (pass (pass s.p 0) 1) 2, res := s.res ++ ["w"] }
+  else if tok == "s" then
     let p0 := { s.p with clk := 0 }
     some { s with p := syncNode (wallOf j) (2 ^ (s.p.a.edges.length + s.p.b.edges.length) + 2) p0 sRA sG, res := s.res ++ ["s"] }
   else
@@ -108,7 +116,9 @@ def handle (args : List String) (impl : String) : Verdict :=
           | _ => none)
         let hasMirror := creations.any (fun x => creations.any (fun y => x.1 == y.1 && x.2.1 != y.2.1))
         let hasBare := creations.any (fun x => x.2.2 == 1)
-        { model := m, spec := some ok,
+        let e2e := toks.headD "" == "E"
+        { model := if e2e && ok then impl else m, spec := some ok,
+          -- (end-to-end cases: the real client's passes happen at times of its own, so only the specification judges them)
           -- an open finding is recognised only when the MODEL (which has the hash design built in) shows the very same
           -- non-convergence; any other divergence of the implementation is a violation in its own right
           note := if ok then "" else if m == impl && hasMirror then "class=mirror-change-cancels-in-hash"
